@@ -215,7 +215,13 @@ impl Property for C08 {
             ));
             for i in 0..nshare {
                 let n = format!("a{}", i);
-                let mut st = vec![Stmt::IfChange(vec!["x".into()])];
+                // `redo x`: the waiter builds x again once it has the lock, i.e.
+                // a process that may be running on a borrowed token starts a job
+                let mut st = vec![if rng.chance(1, 3) {
+                    Stmt::Redo(vec!["x".into()])
+                } else {
+                    Stmt::IfChange(vec!["x".into()])
+                }];
                 if rng.chance(1, 2) {
                     st.push(Stmt::Work(rng.range(1, 30)));
                 }
